@@ -185,9 +185,22 @@ pub fn run_backend(backend: u8, run: &RunCfg, case: u64, stop_after: Option<usiz
                     }
                     let idx = header.iter().position(|h| *h == "divergent__")?;
                     if let Some(c) = stat("diverging") { if f[idx] != if c[0] == Cell::B(true) { "1" } else { "0" } { return Some(("csv.value".into(), "divergent__ column differs".into())); } }
-                    // parameter columns: the expanded draw vector
-                    let vals: Vec<f64> = rec.draws.iter().flat_map(|(_, v)| v.iter().map(|c| if let Cell::F(b) = c { f64::from_bits(*b) } else { f64::NAN })).collect();
-                    for (j, x) in vals.iter().enumerate() { let y: f64 = f[7 + j].parse().ok()?; if (x - y).abs() > tol + x.abs() * 1e-15 { return Some(("csv.value".into(), format!("parameter column {j}: printed {} for {x} at precision {prec}", f[7 + j]))); } }
+                    // parameter columns: every cell of every expanded variable, looked up by its Stan-style column name
+                    // (`name`, `name.i`, `name.i.j`, ... 1-based, first index slowest = row-major flat order as recorded)
+                    for (name, shape) in crate::targets::expanded_shapes(run.dim) {
+                        let vals: Vec<f64> = rec.draws.iter().find(|(n, _)| n == name).map(|(_, v)| v.iter().map(|c| if let Cell::F(b) = c { f64::from_bits(*b) } else { f64::NAN }).collect()).unwrap_or_default();
+                        let total: usize = shape.iter().product();
+                        if vals.len() != total { return Some(("csv.shape".into(), format!("variable {name}: {} recorded cells for shape {:?}", vals.len(), shape))); }
+                        for flat in 0..total {
+                            let mut rem = flat; let mut idx = vec![0usize; shape.len()];
+                            for d in (0..shape.len()).rev() { idx[d] = rem % shape[d]; rem /= shape[d]; }
+                            let col = if shape.is_empty() { name.to_string() } else { format!("{name}.{}", idx.iter().map(|i| (i + 1).to_string()).collect::<Vec<_>>().join(".")) };
+                            let Some(ci) = header.iter().position(|h| *h == col) else { return Some(("csv.columns".into(), format!("column {col} missing from the header {:?}", header))); };
+                            let x = vals[flat];
+                            let y: f64 = match f[ci].parse() { Ok(y) => y, Err(_) => return Some(("csv.value".into(), format!("column {col} holds {:?} for the recorded {x}", f[ci]))) };
+                            if (x - y).abs() > tol + x.abs() * 1e-15 { return Some(("csv.value".into(), format!("column {col}: printed {} for the recorded cell {x} (flat index {flat} of shape {:?}) at precision {prec}", f[ci], shape))); }
+                        }
+                    }
                 }
                 None
             })();
@@ -216,7 +229,13 @@ pub fn main(tier: &str, seed: u64, outdir: &str) {
         rep.hit(&format!("backend.{}", ["hashmap", "ndarray", "arrow", "arrow_nowarmup", "zarr", "zarr_nowarmup", "csv"][backend as usize]));
         if stop_after.is_some() { rep.hit("aborted_prefix"); }
         if run.num_tune > 0 && run.num_draws > 0 && run.fault_period > 0 { rep.nontrivial += 1; }
-        if let Some((key, what)) = run_backend(backend, &run, case, stop_after, &mut cases) {
+        // a panic inside a backend is a violation with a replay, not a crash of the harness
+        let outcome = match std::panic::catch_unwind(std::panic::AssertUnwindSafe(|| run_backend(backend, &run, case, stop_after, &mut cases))) {
+            Ok(o) => o,
+            Err(p) => Some((format!("{}.panic", ["hashmap", "ndarray", "arrow", "arrow", "zarr", "zarr", "csv"][backend as usize]),
+                format!("storage backend panicked: {}", p.downcast_ref::<String>().cloned().or_else(|| p.downcast_ref::<&str>().map(|s| s.to_string())).unwrap_or_default()))),
+        };
+        if let Some((key, what)) = outcome {
             if what.contains("recoverable: true") { rep.hit("skipped.recoverable_error_at_stepsize_reinit(C05)"); }
             else { rep.violation(&key, &what, json!({"kind": "c14", "backend": backend, "run": run.to_json(), "case": case, "stop_after": stop_after})); }
         }
@@ -230,7 +249,7 @@ pub fn main(tier: &str, seed: u64, outdir: &str) {
 pub fn replay(v: &serde_json::Value) -> bool {
     let run = RunCfg::from_json(&v["run"]);
     let mut cases = Cases::new();
-    let r = run_backend(v["backend"].as_u64().unwrap() as u8, &run, v["case"].as_u64().unwrap(), v["stop_after"].as_u64().map(|x| x as usize), &mut cases);
+    let r = match std::panic::catch_unwind(std::panic::AssertUnwindSafe(|| run_backend(v["backend"].as_u64().unwrap() as u8, &run, v["case"].as_u64().unwrap(), v["stop_after"].as_u64().map(|x| x as usize), &mut cases))) { Ok(r) => r, Err(_) => Some(("panic".into(), "storage backend panicked".into())) };
     println!("replay: {:?}", r);
     r.is_some()
 }
